@@ -205,6 +205,24 @@ func checkLegalReq(c *Case, r *mon.Rec, fr specref.Framing, q specref.Req, qty i
 		if !reflect.DeepEqual(v, any(req)) {
 			delete(a, "qty")
 			r.Violate(c, "decoded-request-aliases-input", a, fmt.Sprintf("after the input buffer was overwritten the decoded request reads %+v, original %+v", v, req))
+			continue
+		}
+		// the decoded request belongs to the receiver, which may rewrite it (a gateway readdressing it before forwarding):
+		// the next frame with the same bytes still decodes to the original
+		if rv := reflect.ValueOf(v); rv.Kind() == reflect.Ptr && !rv.IsNil() && rv.Elem().CanSet() {
+			rv.Elem().Set(reflect.Zero(rv.Elem().Type()))
+			in2 := append([]byte{}, wire...)
+			if en.strip {
+				in2 = in2[:len(in2)-2]
+			}
+			var v2 any
+			var perr2 error
+			if pn, txt := mon.Catch(func() { v2, perr2 = en.e.F(in2) }); pn {
+				r.Violate(c, "parser-panics", mon.Attrs{"entry": name, "fc": int(q.FC)}, fmt.Sprintf("second parse of % x: %s", head(wire), txt))
+			} else if perr2 != nil || !reflect.DeepEqual(v2, any(req)) {
+				delete(a, "qty")
+				r.Violate(c, "decoded-requests-share-state", a, fmt.Sprintf("the request decoded from % x was overwritten by its receiver; decoding the same bytes again gives %+v (err %v), original %+v", head(wire), v2, perr2, req))
+			}
 		}
 	}
 }
